@@ -95,6 +95,8 @@ def generate(rng, tier):
         elif c < 0.97 and cfg["faults"]:
             ops.append({"op": "cutscan", "path": rng.choice(written), "via": rng.choice(["io", "io", "ifg"]),
                         "header_stride": rng.choice([97, 53, 211])})
+        elif rng.random() < 0.5:
+            ops.append({"op": "precision", "bits": rng.choice([32, 64])})
         else:
             ops.append({"op": "clock", "dt": rng.choice([1.0, 3600.0, -86400.0, 1e7, rng.uniform(-1e9, 1e9)])})
     return {"prop": PROP, "tier": tier, "config": cfg, "ops": ops}
@@ -374,8 +376,10 @@ def _read(w, entry, via, eio=False):
     if eio:
         w.disk.arm(path, {"kind": "eio_read"})
     arr = dx = wvl = None
+    # the process-wide warning filters are those of a user who asked to see every warning
+    # (set once at the start of the run) plus whatever the library did to them since: a
+    # library that silences warnings globally also silences its own truncation warning
     with warnings.catch_warnings(record=True) as rec:
-        warnings.simplefilter("always")
         try:
             if entry["fmt"] == "codev":
                 arr, meta = w.pio.read_codev_gridint(path)
@@ -506,6 +510,8 @@ def execute(plan):
     np.seterr(all="ignore")
     cfg = plan["config"]
     config.precision = cfg.get("precision0", 64)
+    warnings.resetwarnings()
+    warnings.simplefilter("always")
     clock = SimClock(cfg["t0"])
     # seams: every open()/Path/os call on /sim/... in this (forked) process goes to the
     # SimDisk, time.time() and prysm.io's datetime read the SimClock
@@ -544,6 +550,10 @@ def execute(plan):
         if k == "clock":
             clock.advance(op["dt"])
             ev["t"] = math.floor(clock.now_s)
+        elif k == "precision":
+            config.precision = op["bits"]
+            w.disk.fired["precision_flip"] = w.disk.fired.get("precision_flip", 0) + 1
+            ev["bits"] = op["bits"]
         elif k == "write":
             fmt, path = op["fmt"], op["path"]
             if "reuse" in op and op["reuse"] in objs:
